@@ -67,6 +67,18 @@ Denote(t, nf) ==
     [] t[1] = "par" -> Denote(t[2], nf) \cup Denote(t[3], nf)
 Meaning(m) == Denote(m.t, TRUE)
 
+\* ---- what the elements match (the documented tables), on a universe of objects of one class whose traits all hold
+\* objects of that class: the named traits a, b, items; traits carrying the metadata m with the values True, False, 0, ""
+\* (tT tF t0 tE: "a metadata attribute is defined" = its value is not None); tN with m = None; plain without it
+U == {"a", "b", "items", "tT", "tF", "t0", "tE", "tN", "plain"}
+Match(o, t) == CASE o.k = "trait"    -> o.n = t
+                 [] o.k = "metadata" -> t \in {"tT", "tF", "t0", "tE"}
+                 [] o.k = "anytrait" -> TRUE
+                 [] OTHER            -> FALSE               \* list / dict / set items: the values are objects, not containers
+\* assigning root.t calls the handler; assigning child.t of the object held by root.c calls the handler
+Fires1(m) == {t \in U : \E p \in Meaning(m) : p[1].notify /\ Match(p[1], t)}
+Fires2(m) == {<<c, t>> \in U \X U : \E p \in Meaning(m) : Len(p) >= 2 /\ Match(p[1], c) /\ p[2].notify /\ Match(p[2], t)}
+
 \* ---- known finding F9b: the right operand of a connector compiles to sibling graphs that must be
 \* pairwise different; branches of a parallel that are equal trees make compile_str raise
 RECURSIVE Branches(_)
@@ -92,14 +104,15 @@ StarTerminal(q) == \A i \in 1..Len(q) : q[i] = "*" => NextNonClose(q, i + 1) \in
 LastNotifies(m) == \A p \in Meaning(m) : p[Len(p)].notify
 
 \* one state per member of the documented language, carrying everything the replay needs
-VARIABLES m, lark, den, dup
-vars == <<m, lark, den, dup>>
+VARIABLES m, lark, den, dup, f1, f2
+vars == <<m, lark, den, dup, f1, f2>>
 \* membership in the as-written grammar, decided on the tokens: no "*" inside brackets (TLC checks
 \* LarkFlagRight: this coincides with membership in LangLark; evaluated for small L only, it is quadratic)
 Depth(q, i) == Cardinality({j \in 1..i : q[j] = "["}) - Cardinality({j \in 1..i : q[j] = "]"})
 StarOutsideBrackets(q) == \A i \in 1..Len(q) : q[i] = "*" => Depth(q, i) = 0
 Init == /\ m \in LangDoc /\ lark = StarOutsideBrackets(m.s)
         /\ den = Meaning(m) /\ dup = DupSiblings(m.t)
+        /\ f1 = Fires1(m) /\ f2 = Fires2(m)
 Next == UNCHANGED vars
 Spec == Init /\ [][Next]_vars
 WellFormed == Balanced(m.s) /\ StarTerminal(m.s) /\ LastNotifies(m)
@@ -107,4 +120,6 @@ LarkSubset == LangLark \subseteq LangDoc
 LarkFlagRight == lark = (m \in LangLark)
 \* one parse tree per string (the grammar is unambiguous): the meaning of a string is well defined
 Unambiguous == \A x \in LangDoc : x.s = m.s => x.t = m.t
+\* ":" silences exactly the element before it: with only "." connectors every matched first-level trait fires
+DotsFireAll == (\A i \in 1..Len(m.s) : m.s[i] # ":") => \A p \in den : \A t \in U : Match(p[1], t) => t \in f1
 =============================================================================
